@@ -34,15 +34,33 @@ type refineCfg struct {
 	// peer may send a data message, which makes that goroutine close the connection with 1008
 	CloseRead bool `json:"closeread"`
 	PeerData  bool `json:"peerdata"`
+	// Between (with Ctx): the application cancels the Writer's context itself, between the chunk it has written and Close --
+	// the message is open, no frame is in flight, a second writer is queued behind the message lock
+	Between bool `json:"between,omitempty"`
+	// Stretch: the goroutine that logs this hook event on this connection is held there for StretchUS microseconds -- a window of a
+	// few nanoseconds in the code (closeMu taken and the closed flag not yet raised, the flag raised and the transport not yet
+	// closed, casClosing won and close() not yet entered ...) becomes wide enough for the other actors to run into it.  This only
+	// chooses a schedule; what the execution then does is judged as always.
+	Stretch   string `json:"stretch,omitempty"`
+	StretchUS int    `json:"stretch_us,omitempty"`
 }
 
-func runRefine(cfg refineCfg) {
+var stretchPoints = []string{"CloseEnter", "ClosedPre", "ClosedPost", "CasClosingOK", "WgCloseMu", "RwcClosed", "CloseRcvd"}
+
+// stretch is the per-connection table the tracer's gate consults.
+var stretch sync.Map // conn id -> refineCfg
+
+func runRefine(cfg refineCfg, rep *Report) {
 	rng := rand.New(rand.NewSource(cfg.Seed))
 	c, raw, err := ws.NewConn(cfg.Client, "off", 0)
 	if err != nil {
 		return
 	}
 	ws.LogPeerScripted(c)
+	if cfg.Stretch != "" {
+		stretch.Store(websocket.VerifConnID(c), cfg)
+		defer stretch.Delete(websocket.VerifConnID(c))
+	}
 	slow := time.Duration(0)
 	if cfg.Ctx {
 		// a narrow transport and a peer that takes its time: frames are in flight for a while, so that a cancellation can hit a
@@ -139,7 +157,7 @@ func runRefine(cfg refineCfg) {
 		go func() {
 			defer wg.Done()
 			websocket.VerifEmit(c, "Actor", "X", 0, 0)
-			if which&1 != 0 {
+			if which&1 != 0 && !cfg.Between {
 				time.Sleep(da)
 				websocket.VerifEmit(c, "CtxCancel", "A", 0, 0)
 				acancel()
@@ -159,6 +177,11 @@ func runRefine(cfg refineCfg) {
 		if _, err := w.Write([]byte("one chunk")); err != nil {
 			return
 		}
+		if cfg.Between {
+			time.Sleep(us(300))
+			websocket.VerifEmit(c, "CtxCancel", "A", 0, 0)
+			acancel()
+		}
 		w.Close()
 	})
 	if cfg.Second {
@@ -171,7 +194,11 @@ func runRefine(cfg refineCfg) {
 	} else {
 		actor("R", us(300), func() { c.Read(bg) })
 	}
-	actor("K", us(1500), func() { c.Close(websocket.StatusNormalClosure, "") })
+	kd := us(1500)
+	if cfg.Between {
+		kd += 1500 * time.Microsecond
+	}
+	actor("K", kd, func() { c.Close(websocket.StatusNormalClosure, "") })
 	if cfg.CloseNow {
 		actor("N", us(2500), func() { c.CloseNow() })
 	}
@@ -183,6 +210,9 @@ func runRefine(cfg refineCfg) {
 		// the scenario did not finish by itself (e.g. the machine was suspended and every timer fired at once): what the harness
 		// does from here on is not part of the scenario; TraceRefine stops replaying this connection at this line
 		websocket.VerifEmit(c, "Aborted", "", 0, 0)
+		// every actor's call is bounded (Close: 5 s + 5 s, everything else returns when the connection closes): 20 s later
+		// something is stuck for good
+		rep.miss("refine-scenario-calls-did-not-return", cfg, "actors still blocked after 20 s:\n"+libStacks())
 	}
 	within(5*time.Second, func() { c.CloseNow() })
 	raw.Close()
@@ -201,6 +231,13 @@ func init() {
 		rep := newReport("refine")
 		tr := &ws.Tracer{}
 		tr.Install()
+		tr.Gate = func(e websocket.VerifEvent) {
+			if v, ok := stretch.Load(e.Conn); ok {
+				if cfg := v.(refineCfg); cfg.Stretch == e.Ev {
+					time.Sleep(time.Duration(cfg.StretchUS) * time.Microsecond)
+				}
+			}
+		}
 		sem := make(chan struct{}, *par)
 		var wg sync.WaitGroup
 		for i := 0; i < *n; i++ {
@@ -220,6 +257,9 @@ func init() {
 				cfg.CloseNow, cfg.Ctx = true, false
 			case "ctx":
 				cfg.CloseNow, cfg.Ctx = false, true
+				if rng.Intn(3) == 0 {
+					cfg.Between, cfg.Second = true, true
+				}
 			case "cr":
 				cfg.CloseNow, cfg.Ctx, cfg.CloseRead = false, false, true
 				cfg.PeerData = rng.Intn(2) == 0
@@ -227,12 +267,15 @@ func init() {
 			if *kind != "mix" && *kind != "cr" {
 				cfg.CloseRead, cfg.PeerData = false, false
 			}
+			if rng.Intn(2) == 0 {
+				cfg.Stretch, cfg.StretchUS = stretchPoints[rng.Intn(len(stretchPoints))], 100+rng.Intn(1500)
+			}
 			sem <- struct{}{}
 			wg.Add(1)
 			go func() {
 				defer wg.Done()
 				defer func() { <-sem }()
-				runRefine(cfg)
+				runRefine(cfg, rep)
 			}()
 			rep.Evaluations++
 			rep.sample(cfg)
